@@ -2,7 +2,7 @@
    Owning types modelled: static_vector (non-trivial storage) and inplace_vector, for element types
    with (fl = true) and without (fl = false) move operations, every capacity, every history of the
    operations of C03.Model.op on two objects. *)
-From Tetl Require Import Lib.Base C03.Trace C03.Model C03.Spec C03.ProofsTrace C03.ProofsHist C03.ProofsVerdict.
+From Tetl Require Import Lib.Base C03.Trace C03.Model C03.Spec C03.ProofsTrace C03.ProofsRun C03.ProofsHist C03.ProofsVecSelf.
 
 (** * the automaton *)
 (* a well-formed trace that leaves nothing alive: the history of EVERY location is
@@ -61,10 +61,19 @@ Theorem C03_vec_verdict : forall (fl : bool) (cap : nat) (iv : bool) (ops : list
 Proof. exact completed_verdict. Qed.
 Print Assumptions C03_vec_verdict.
 
+(* self copy/move assignment and self swap leave the elements of the vector unchanged (every
+   self-operation of the history; the list the correspondence prints) *)
+Theorem C03_vec_self_identity : forall (fl : bool) (cap : nat) (iv : bool) (ops : list op),
+  history_completed fl cap iv ops = true ->
+  self_checks fl cap iv (0, 0) [] ops = repeat true (count_self ops).
+Proof. exact vec_self_identity. Qed.
+Print Assumptions C03_vec_self_identity.
+
 (* the hypothesis is satisfiable by a history that copies, moves, swaps, inserts and erases *)
 Example C03_nonvacuous :
   history_completed true 3 false
     [EmplaceBack false 1; PushBackRv false 2; InsertCr false 0 3; MoveAssign true; Swap; SelfSwap false;
-     EraseAt false 1; CopyConstruct false; MoveRoundTrip false; Resize true 2] = true /\
+     EraseAt false 1; CopyConstruct false; MoveRoundTrip false; Resize true 2;
+     SetInsertRv true 5; SetEmplace true 4; SetEraseKey true 5; FlatInsertCr false 9; FlatEraseKey false 9] = true /\
   history_completed false 2 true [IvTryPushCr false 1; IvUncheckedPushRv false 2; IvMoveConstruct false; IvCopyConstruct true] = true.
 Proof. split; vm_compute; reflexivity. Qed.
